@@ -205,7 +205,7 @@ fn index_items(items: &[syn::Item], prefix: &str, out: &mut Vec<Value>) {
                             let (s, e) = range_of(c);
                             out.push(json!({"kind":"const","path":format!("{}{}", ip, c.ident),
                                 "start":item_start(&c.attrs, c.span()).min(s),"end":e,"text":toks(&c.expr),
-                                "ty":toks(&c.ty),"expr_span":sp_of(&c.expr)}));
+                                "ty":toks(&c.ty),"expr_span":sp_of(&c.expr),"expr":expr_json(&c.expr)}));
                         }
                         _ => {}
                     }
@@ -249,7 +249,7 @@ fn index_items(items: &[syn::Item], prefix: &str, out: &mut Vec<Value>) {
                 let (a, b) = range_of(c);
                 out.push(json!({"kind":"const","path":format!("{}{}", prefix, c.ident),
                     "start":item_start(&c.attrs, c.span()).min(a),"end":b,"text":toks(&*c.expr),
-                    "ty":toks(&*c.ty),"expr_span":sp_of(&*c.expr)}));
+                    "ty":toks(&*c.ty),"expr_span":sp_of(&*c.expr),"expr":expr_json(&c.expr)}));
             }
             syn::Item::Static(st) => {
                 let (a, b) = range_of(st);
